@@ -156,7 +156,7 @@ SetAttr ==
 
 NofmtData ==
   /\ ph = "ev" /\ ei <= NEvents /\ E.op = "nofmt_data"
-  /\ cnf' = IF E.outcome = "ok" THEN Append(cnf, [lf |-> E.lf, oid |-> E.oid, payload |-> E.payload]) ELSE cnf
+  /\ cnf' = IF E.outcome = "ok" THEN Append(cnf, [lf |-> E.lf, oid |-> E.oid, payload |-> E.payload, proc |-> E.proc]) ELSE cnf
   /\ verdict' = verdict \cup Tag(FlagClause(hcm.flag), ei)
   /\ cnt' = [cnt EXCEPT !.events = @ + 1]
   /\ ei' = ei + 1
@@ -165,7 +165,9 @@ NofmtData ==
 (* the payload of an existing no-format record is replaced (record.data = ...): Canon follows *)
 NofmtReplace ==
   /\ ph = "ev" /\ ei <= NEvents /\ E.op = "nofmt_replace"
-  /\ cnf' = IF E.outcome = "ok" /\ E.idx \in DOMAIN cnf THEN [cnf EXCEPT ![E.idx].payload = E.payload] ELSE cnf
+  \* (E.idx counts the records created by the process of this event)
+  /\ LET mine == SelectSeq([i \in DOMAIN cnf |-> i], LAMBDA i : cnf[i].proc = E.proc) IN
+       cnf' = IF E.outcome = "ok" /\ E.idx \in DOMAIN mine THEN [cnf EXCEPT ![mine[E.idx]].payload = E.payload] ELSE cnf
   /\ cnt' = [cnt EXCEPT !.events = @ + 1]
   /\ ei' = ei + 1
   /\ UNCHANGED << tid, ph, rd, nrec, bnd, dec, cfil, clf, cobj, rej, hcm, seen, projs, failedw, verdict >>
